@@ -395,7 +395,7 @@ def rule_hz(ctx, mod, ci):
                     dst = note_obj(ci)
                     it.call_function(fh, [dst, hz * 2 ** (cents / 1200.0), pitch], {})
                     nm, oc = dst.attrs.get("name"), dst.attrs.get("octave")
-                    out.append(12 * oc + nd.pitch_of_concrete(nm) if isinstance(nm, str) and isinstance(oc, int) else None)
+                    out.append(nd.pitch_number(nm, oc) if isinstance(nm, str) and isinstance(oc, int) else None)
                 return hz, out
             ps = explore(lambda ch: Interp(ctx.repo, ch), f)
             checked += 1
